@@ -180,26 +180,33 @@ example : (run foldSimp (fun _ _ => .unsat) {} exEnv exCode 100).ends = [] ∧
     `I` describes, the result of `runC` has an end whose path `I` satisfies and which reports exactly `h` (kind, and
     its data evaluated under `I`), untagged, its storage maps of all modelled accounts describing exactly `w'` — or
     that end is an error report (stuck: also a symbolic call target, a precompile, a call with a value, depth 1024) or
-    a tagged end — or a flag is raised. Nothing a callee or a resumed caller does is dropped silently. -/
+    a tagged end — or a flag is raised. Nothing a callee or a resumed caller does is dropped silently.
+    With `cfg.balances` on: `hbal` as in `C01.sound_calls`, and `hbound` — finitely many accounts hold ether and their
+    total is at most 2^128 (`BalBound`): halmos appends `balance <= MAX_ETH` to the path for every balance it reads (the
+    documented modelling assumption of the property), and a run in which a balance exceeds the bound is outside the
+    explored set; the total is what transfers preserve. -/
 theorem complete_calls {s : Simp} (hs : SimpSound s) {o : Oracle} (ho : OracleSound o) (cfg : Cfg) (env : Env)
     (codes : List (Nat × List Nat)) (this : Nat) (fuel : Nat) (p : Evm.Params) (w : Evm.World)
     (hmem : cfg.maxMem + 32 ≤ p.memLimit) (hdep : 1024 ≤ p.maxDepth)
     (hcodes : ∀ a, w.codeOf a = codeOf codes a)
     (hcb : ∀ a prog, codeOf codes a = some prog → ∀ b ∈ prog, b < 256)
     (hz : ∀ a, Modelled codes this a → C01.ZeroStorage w a)
-    (I : Interp) (hI : I.Std) (f0 : Evm.Frame)
+    (I : Interp) (hI : I.Std) (hbal : cfg.balances = true → BalHyp I cfg w)
+    (hbound : cfg.balances = true → BalBound w) (f0 : Evm.Frame)
     (hR0 : R I env ((codeOf codes this).getD []) p initState f0) (hthis : f0.this = this) (hd0 : f0.depth = 0)
     (n : Nat) (w' : Evm.World) (h : Evm.Halt) (hex : Evm.exec p n w f0 = some (w', h)) :
     (∃ ce ∈ (runC s o cfg env codes this fuel).ends, Sat I ce.e.st.path ∧
         ((∃ h0, ce.e.out = .halt h0 ∧ haltWith h0 (ce.e.data.map (·.eval I)) = h ∧ ce.e.tag = .normal ∧
-            WRelM I (Modelled codes this) w w' (stoOf ce.stores) (evalLogs I ce.logs) ∧ (∀ b ∈ ce.e.data, b.WF ∧ b.width = 8)) ∨
+            WRelM I (Modelled codes this) w w' (stoOf ce.stores) (evalLogs I ce.logs) (balSem I w ce.bal) ∧
+            (∀ b ∈ ce.e.data, b.WF ∧ b.width = 8)) ∨
          (∃ r, ce.e.out = .stuck r) ∨ ce.e.tag ≠ .normal)) ∨
     (runC s o cfg env codes this fuel).boundedLoops ≠ [] ∨
     (runC s o cfg env codes this fuel).depthCut = true ∨
     (runC s o cfg env codes this fuel).outOfFuel = true :=
   exploreC_complete (cfg := cfg) (codes := codes) (S := Modelled codes this) (r := (w', h)) hs ho hmem hdep hcodes
-    (fun _ _ h => modelled_of_code h) hcb hI fuel 0 [initC env codes this] {}
-    ⟨initC env codes this, List.mem_singleton.2 rfl, Sat.nil I, w, f0, [], relC_init hR0 hthis hd0 hcb hz, n, hex⟩
+    (fun _ _ h => modelled_of_code h) hcb hI hbal fuel 0 [initC env codes this] {}
+    ⟨initC env codes this, List.mem_singleton.2 rfl, Sat.nil I, w, f0, [], relC_init hR0 hthis hd0 hcb hz, ⟨n, hex⟩,
+      fun hC => ⟨hbound hC, fun kc hm => absurd hm List.not_mem_nil⟩⟩
 
 /-- `complete_calls` on the caller / callee pair of Props.C01: the reference EVM returns the callee's 32 bytes; no
     flag is raised in that run and its only end is an untagged halt, so it must be the reporting one -/
@@ -232,7 +239,7 @@ example : ∃ ce ∈ (runC foldSimp exOracle {} exEnv C01.exCodes 0x1000 100).en
           simp only [Option.map_some, Option.some.injEq] at hc
           subst hc
           exact hall q (List.mem_of_find?_eq_some hf) b hb)
-      (fun _ _ _ => ⟨rfl, rfl⟩) exI exI_std _ hR rfl rfl 40 w' _ hex with
+      (fun _ _ _ => ⟨rfl, rfl⟩) exI exI_std (fun h => by cases h) (fun h => by cases h) _ hR rfl rfl 40 w' _ hex with
     ⟨ce, hm, _, hc⟩ | h | h | h
   · obtain ⟨ho', ht'⟩ := hshape ce hm
     rcases hc with ⟨h0, ho0, hw, _⟩ | ⟨r, hr⟩ | ht
